@@ -18,7 +18,9 @@ META = {
                    "populated inside std::call_once; (3) every task body handed to pool_t::map / the dataset iterators writes only its own locals, "
                    "storage selected by its worker id, or slices selected by its own range; (4) ml::tune tasks write slot (old_trials + index / folds, "
                    "index % folds) - a bijection of the task index - and read only slots of earlier batches (closest_trial bounded by old_trials, the "
-                   "first batch has a single trial); (5) history-carrying line-search objects are cloned per minimize call and never stored.",
+                   "first batch has a single trial); (5) history-carrying line-search objects are cloned per minimize call and never stored; (6) objects whose "
+                   "const interface writes hidden per-call state (iterators with per-worker buffers, function objects, line-search and program objects) are "
+                   "never shared between concurrent tasks or between the fold/trial callbacks of ml::tune in a way that reaches that state.",
     "not_decided": "bit-identical results across thread counts (floating-point re-association), the absence of races inside the standard library and Eigen, "
                    "user code calling the explicit mutators (drop/shuffle) or the non-const factory concurrently",
     "assumptions": ["each thread uses its own function_t object (stated by the property)", "std::call_once, std::mutex and std::condition_variable behave as specified"],
